@@ -111,6 +111,7 @@ func runPlanD(def *PropDef, p *Plan, scratch string) *RunResult {
 	if res.Evals == 0 {
 		res.Evals = 1
 	}
+	res.Extra = map[string]any{"damages_evaluated": res.Evals, "by_kind": res.Faults, "pristine_files": len(de.pristine)}
 	for c := range de.classes {
 		res.Sigs = append(res.Sigs, c)
 	}
